@@ -45,9 +45,10 @@ type relItem struct{ b, o, h, seq int }
 
 type recIPAM struct {
 	ipam.Interface
-	rel [][]relItem
-	rba [][2]int
-	rha []int
+	failNext bool // the next ReleaseIPs call returns an error and releases nothing
+	rel      [][]relItem
+	rba      [][2]int
+	rha      []int
 }
 
 func (r *recIPAM) ReleaseIPs(ctx context.Context, opts ...ipam.ReleaseOptions) ([]cnet.IP, []ipam.ReleaseOptions, error) {
@@ -61,6 +62,10 @@ func (r *recIPAM) ReleaseIPs(ctx context.Context, opts ...ipam.ReleaseOptions) (
 		batch = append(batch, relItem{b, ord, handleNum(o.Handle), seq})
 	}
 	r.rel = append(r.rel, batch)
+	if r.failNext {
+		r.failNext = false
+		return nil, nil, fmt.Errorf("injected datastore error")
+	}
 	return nil, opts, nil
 }
 func (r *recIPAM) ReleaseBlockAffinity(ctx context.Context, block *model.AllocationBlock, mustBeEmpty bool) error {
@@ -289,19 +294,20 @@ type blockT struct {
 	es  []entry
 }
 type facts struct {
-	grace  int // minutes; -1 = nil
-	now    int
-	knodes map[int]bool
-	cnodes map[int]int // -1 = no orchRef
-	cache  map[int]podT
-	api    map[int]podT
-	blocks map[int]blockT
-	since  map[string]int // id -> time it was first seen as a leak candidate (continuously since)
-	insync bool
+	grace    int // minutes; -1 = nil
+	now      int
+	knodes   map[int]bool
+	cnodes   map[int]int // -1 = no orchRef
+	cache    map[int]podT
+	api      map[int]podT
+	blocks   map[int]blockT
+	since    map[string]int  // id -> time it was first seen as a leak candidate (continuously since)
+	confGone map[string]bool // id -> its node was gone (per the ground truth) at the sync that confirmed it as a leak
+	insync   bool
 }
 
 func newFacts(grace int) *facts {
-	return &facts{grace: grace, knodes: map[int]bool{}, cnodes: map[int]int{}, cache: map[int]podT{}, api: map[int]podT{}, blocks: map[int]blockT{}, since: map[string]int{}}
+	return &facts{grace: grace, knodes: map[int]bool{}, cnodes: map[int]int{}, cache: map[int]podT{}, api: map[int]podT{}, blocks: map[int]blockT{}, since: map[string]int{}, confGone: map[string]bool{}}
 }
 
 // ownerJustifies: does the owner of this allocation (per the API = the truth) still justify it?
@@ -471,6 +477,8 @@ func exec(h *rt.H, s *state, op string) string {
 		if a(1) != 0 {
 			s.c.VerifMarkDirty(nodeName(a(1)))
 		}
+	case "failrel":
+		s.cli.ipam.failNext = true
 	case "tick":
 		s.c.VerifAdvanceClock(time.Duration(a(1)) * time.Minute)
 		f.now += a(1)
@@ -527,8 +535,15 @@ func doSync(h *rt.H, s *state, full bool, fail func(string, string)) string {
 			if ent.seq != r.seq {
 				fail("release-seq", fmt.Sprintf("released %s with sequence number %d, the allocation seen has %d", id, r.seq, ent.seq))
 			}
+			staleKnode := false
 			if f.ownerJustifies(*ent, r.b) {
 				sig := "release-in-use"
+				if tr, ok := tracked[id]; ok && ent.kind == "t" && tr.KNode == "" {
+					// the node exists (again) but the collector never re-checked it: its cached knode for this tunnel
+					// address is still "" from when the node was gone (a failed release is not retried via the dirty set)
+					sig = "release-in-use-tunnel-stale-knode"
+					staleKnode = true
+				}
 				if k, ok := f.cnodes[ent.node]; (!ok || k < 0 || !f.knodes[k]) && !f.justifiedBy(f.cache, *ent, r.b) {
 					// the hosting node is gone/unknown AND the informer cache has lost the pod the API still has:
 					// the final check used the stale cache, no grace period (known trade-off).  When cache and API
@@ -538,7 +553,8 @@ func doSync(h *rt.H, s *state, full bool, fail func(string, string)) string {
 				fail(sig, "released an address whose owner still justifies it at the time of release: "+id)
 			}
 			// grace: only needed while the hosting Kubernetes node still exists
-			if k, ok := f.cnodes[ent.node]; ok && k >= 0 && f.knodes[k] {
+			// (an allocation confirmed in an EARLIER sync while its node was gone needed no grace period then)
+			if k, ok := f.cnodes[ent.node]; ok && k >= 0 && f.knodes[k] && !staleKnode && !f.confGone[id] {
 				t0, seen := f.since[id]
 				if f.grace <= 0 || !seen || f.now-t0 <= f.grace {
 					fail("release-before-grace", fmt.Sprintf("released %s on an existing node before the grace period elapsed (grace=%d now=%d candidateSince=%d seen=%v)", id, f.grace, f.now, t0, seen))
@@ -592,11 +608,17 @@ func doSync(h *rt.H, s *state, full bool, fail func(string, string)) string {
 			if _, ok := f.since[id]; !ok {
 				f.since[id] = f.now
 			}
+			if _, ok := f.confGone[id]; al.Confirmed && !ok {
+				nd := num(al.Node, "n")
+				k, known := f.cnodes[nd]
+				f.confGone[id] = !(known && k >= 0 && f.knodes[k])
+			}
 		}
 	}
 	for id := range f.since {
 		if !live[id] {
 			delete(f.since, id)
+			delete(f.confGone, id)
 		}
 	}
 
@@ -972,9 +994,75 @@ func genNodeGoneBeforePods(h *rt.H) []string {
 	return ops
 }
 
+// genReassign: an address the collector already tracks is released and assigned again under the SAME handle id to
+// a DIFFERENT pod (an IPAM user with stable per-workload handles), with a higher sequence number; the old pod is
+// deleted, the new pod runs with the address.  The collector must validate against the NEW owner.
+func genReassign(h *rt.H) []string {
+	hd := 1 + h.Intn(6)
+	o := ownerOf(hd)
+	b := 1 + h.Intn(nBlocks)
+	ord := h.Intn(blockSize)
+	podA, podB := hd, hd+10
+	ops := []string{"new " + rt.Pick(h, []string{"60", "60", "60", "0", "-"}), "insync"}
+	for n := 1; n <= nNodes; n++ {
+		ops = append(ops, fmt.Sprintf("cnode %d %d", n, n), fmt.Sprintf("knode %d 1", n))
+	}
+	ops = append(ops, fmt.Sprintf("block %d %d %d:%d:p:%d:%d:3", b, o.node, ord, hd, o.node, podA))
+	ops = append(ops, fmt.Sprintf("pod %d 1 1 %d 0 %d.%d", podA, o.node, b, ord), "sync "+b01(h.Bool()))
+	// re-assignment seen in one block update: same handle + address, new owner, new sequence number
+	steps := []string{
+		fmt.Sprintf("block %d %d %d:%d:p:%d:%d:9", b, o.node, ord, hd, o.node, podB),
+		fmt.Sprintf("pod %d 1 1 %d 0 %d.%d", podB, o.node, b, ord),
+		fmt.Sprintf("poddel %d 1 1", podA),
+	}
+	if h.Bool() {
+		steps[0], steps[2] = steps[2], steps[0]
+	}
+	ops = append(ops, steps...)
+	ops = append(ops, fmt.Sprintf("dirty %d", o.node), "sync "+b01(h.Bool()), "tick 70", "sync 1", "dump")
+	if h.Bool() {
+		ops = append(ops, "tick 70", "sync "+b01(h.Bool()))
+	}
+	if h.Bool() { // the new owner goes away too: now the address must be collected, with the NEW sequence number
+		ops = append(ops, fmt.Sprintf("poddel %d 1 1", podB), fmt.Sprintf("dirty %d", o.node), "sync 0", "tick 70", "sync 1", "dump")
+	}
+	return ops
+}
+
+// genReleaseFails: a ReleaseIPs call fails (datastore error); the collector must retry later and stay consistent.
+func genReleaseFails(h *rt.H) []string {
+	n := 1 + h.Intn(nNodes)
+	b := 1 + h.Intn(nBlocks)
+	ops := []string{"new 60", "insync"}
+	for k := 1; k <= nNodes; k++ {
+		ops = append(ops, fmt.Sprintf("cnode %d %d", k, k), fmt.Sprintf("knode %d 1", k))
+	}
+	// a tunnel address of node n and a pod address whose pod is gone
+	hd := rt.Pick(h, []int{1, 2, 3, 4, 5, 6})
+	o := ownerOf(hd)
+	ops = append(ops, fmt.Sprintf("block %d %d 0:%d:t:%d:0:1;1:%d:p:%d:%d:2", b, n, 6+n%2+1, n, hd, o.node, o.pod), "sync 1")
+	switch h.Intn(3) {
+	case 0: // node deleted, release fails, node re-created before the retry
+		ops = append(ops, fmt.Sprintf("knode %d 0", n), fmt.Sprintf("cnodedel %d", n), "failrel", "sync "+b01(h.Bool()),
+			fmt.Sprintf("cnode %d %d", n, n), fmt.Sprintf("knode %d 1", n), "sync 0", "dump", "sync 1")
+	case 1: // leak on an existing node, release fails, retried
+		ops = append(ops, "tick 70", "failrel", "sync 1", "sync 0", "dump", "sync 1")
+	default:
+		ops = append(ops, "failrel", "tick 70", "sync 1", fmt.Sprintf("pod %d 1 1 %d 0 %d.1", o.pod, o.node, b), "sync 0", "sync 1")
+	}
+	ops = append(ops, "dump")
+	return ops
+}
+
 func genCase(h *rt.H) []string {
 	if h.Chance(0.08) {
 		return genStaleCache(h)
+	}
+	if h.Chance(0.05) {
+		return genReassign(h)
+	}
+	if h.Chance(0.03) {
+		return genReleaseFails(h)
 	}
 	if h.Chance(0.04) {
 		return genNodeGoneBeforePods(h)
@@ -1213,7 +1301,7 @@ func probeHandleSplit(h *rt.H) {
 func main() {
 	h := rt.New()
 	defer h.Close()
-	h.Rule = "case = `new GRACE` (60 min / 0 / unset) + 3 Calico+Kubernetes nodes + 10..54 ops (thorough ..109) over {block update (allocate, release, re-allocate with a new sequence number, " +
+	h.Rule = "case = `new GRACE` (60 min / 0 / unset) + 3 Calico+Kubernetes nodes + 10..54 ops (thorough ..109) over {block update (allocate, release, re-allocate with a new sequence number (also to a different pod under the same handle), injected ReleaseIPs failure, " +
 		"affinity change incl. host->host and host->virtual, clear), block delete, pod add/change/delete (missing IPs, other IP, evicted, rescheduled, unscheduled), stale informer cache (also together with a deleted Calico node), Kubernetes node delete/create (with or before its pods), " +
 		"Calico node delete/create/non-k8s, dirty mark, tick 25/40/70 min, sync (dirty/full), dump} on 5 blocks of 8 addresses and 11 handles (pod, tunnel, unknown-source, windows-reserved, no handle, no node attribute); " +
 		"generator keeps outcomes independent of Go map order (<=1 empty block per node; a pod reports all or none of its handle's addresses; cache/API disagree only for single-address handles on existing nodes); " +
